@@ -117,7 +117,7 @@ func SpecReplyTruth(reply interface{}) bool { panic("abstract spec function") }
 //@   ghost var nDel mathint
 //@   ghost var nPexpire mathint
 //@   requires nonnil: rr != nil && e != nil && rr.Client != nil && e.ObjectParser != nil
-//@   modifies e.Key, rr.skippedKey, rr.skipping, probed, expanded, askedReplace, nStrip, reqs, lastCmd, lastNArgs, lastA1, lastA2, lastA3, lastA4, lastReply, nDel, nPexpire
+//@   modifies e.Key, rr.skippedKey, rr.skipping, refused, refusal, probed, expanded, askedReplace, nStrip, reqs, lastCmd, lastNArgs, lastA1, lastA2, lastA3, lastA4, lastReply, nDel, nPexpire
 //@   set probed = ite(exist, 1, 0) after store exist
 //@   set probed = ite(err#2 != nil, 0 - 1, probed) after store err#2
 //@   ensures ignore_keeps_existing_key: probed == 1 && rr.KeyExists == "ignore" ==> err == nil && expanded == old(expanded) && nPexpire == old(nPexpire) && nDel == old(nDel)
@@ -136,6 +136,12 @@ func SpecReplyTruth(reply interface{}) bool { panic("abstract spec function") }
 //@   ghost var askedReplace mathint = 0
 //@   set askedReplace = ite(cmd == "restore", ite(exists i int :: 0 <= i && i < len(args) && args[i] == dyn("REPLACE"), 1, 0), askedReplace) at call Do
 //@   assert at call restoreBigRdbEntry: native_fallback_does_what_the_refused_restore_replace_would_have_done: probed == 0 - 1 && askedReplace == 1 ==> nDel == old(nDel) + 1
+//   refused / refusal  the last RESTORE was answered with an error / the text of that error
+//@   ghost var refused mathint = 0
+//@   ghost var refusal string = ""
+//@   set refused = ite(result1 != nil, 1, 0) after call String
+//@   set refusal = errtext(result1) after call String
+//@   ensures a_refused_restore_is_passed_over_only_when_the_target_says_the_key_is_there [C20 C04]: err == nil && refused == 1 && expanded == old(expanded) ==> keyspec.SpecContains(refusal, "Target key name is busy") || keyspec.SpecContains(refusal, "BUSYKEY Target key name already exists")
 //@   ensures native_fallback_applies_the_expiry: err == nil && probed == 0 - 1 && expanded == old(expanded) + 1 && old(e.ExpireAt) != 0 ==> nPexpire == old(nPexpire) + 1
 //@   loop 1:
 //@     invariant restore_path: fresh(params) && probed == 0 - 1 && expanded == old(expanded) && nDel == old(nDel) && nPexpire == old(nPexpire)
